@@ -854,6 +854,43 @@ class _Interjacent(View):
         raise Unsupported(f'interjacent[{idx!r}]')
 
 
+# what each record constructor does, in genomic coordinates (these formulas ARE the postconditions of the constructor contracts below;
+# the dispatcher contract AlignmentConvert uses the same functions to state what the emitted records denote)
+def _mx(a, b):
+    return z3.If(a >= b, a, b)
+
+
+def _mn(a, b):
+    return z3.If(a <= b, a, b)
+
+
+def deletion_hull(side, h, U, D, sp, first, m):
+    """[lo, hi): what the junction skips on this side - the part of the spanning exon beyond the junction end and every interjacent exon"""
+    last = first + m - 1
+    if side == 'upstream':
+        return z3.If(h.e[sp] > U, U, h.s[first]), z3.If(m > 0, h.e[last], h.e[sp])
+    return z3.If(m > 0, h.s[first], h.s[sp]), z3.If(h.s[sp] < D, D, h.e[last])
+
+
+def donor_range(kind, h, US, U, D, DE, ue, ds, first, m):
+    """[dlo, dhi): the part of the novel exon that the insertion / substitution brings in (clipped at the neighbouring exon)"""
+    last = first + m - 1
+    if kind == 'upstream_insertion':
+        return _mx(h.e[ds - 1], US), U
+    if kind == 'downstream_insertion':
+        return D, _mn(h.s[ue + 1], DE)
+    if kind == 'upstream_substitution':
+        return z3.If(first > 0, _mx(h.e[first - 1], US), US), U
+    return D, z3.If(last < h.n - 1, _mn(h.s[last + 1], DE), DE)
+
+
+def insertion_anchor(kind, h, strand, U, D, ue, ds):
+    """the exonic base after which (in transcript direction) the donor is inserted"""
+    if kind == 'upstream_insertion':
+        return z3.If(strand == 1, h.e[ds - 1] - 1, D)
+    return z3.If(strand == 1, U - 1, h.s[ue + 1])
+
+
 class _JunctionDeletion(Contract):
     """the deletion removes, in gene coordinates, exactly the hull of what the junction skips on this side: the part of the spanning exon
     beyond the junction end together with every interjacent exon (nothing more, nothing less at either end), on both strands"""
@@ -919,12 +956,7 @@ class _JunctionDeletion(Contract):
     def post_return(self, I, st, ret):
         e, h, gn = I.e, st.h, st.gn
         # R = what the junction skips on this side
-        if self.side == 'upstream':
-            lo = z3.If(h.e[st.sp] > st.U, st.U, h.s[st.first])                 # first skipped genomic base
-            hi = z3.If(st.m > 0, h.e[st.first + st.m - 1], h.e[st.sp])         # one past the last skipped base
-        else:
-            lo = z3.If(st.m > 0, h.s[st.first], h.s[st.sp])
-            hi = z3.If(h.s[st.sp] < st.D, st.D, h.e[st.first + st.m - 1])
+        lo, hi = deletion_hull(self.side, h, st.U, st.D, st.sp, st.first, st.m)      # first skipped genomic base, one past the last
         a = z3.If(gn.strand == 1, lo - gn.start, gn.end - hi)
         b = z3.If(gn.strand == 1, hi - gn.start, gn.end - lo)
         loc, at = ret.fields['location'], ret.fields['attrs']
@@ -1018,18 +1050,9 @@ class _JunctionInsSub(Contract):
         last = st.first + st.m - 1
         loc, at = ret.fields['location'], ret.fields['attrs']
         k = self.kind
-        if k == 'upstream_insertion':
-            prev = st.ds - 1
-            dlo, dhi = mx(h.e[prev], st.US), st.U
-            anchor = z3.If(gn.strand == 1, h.e[prev] - 1, st.D)
-        elif k == 'downstream_insertion':
-            nxt = st.ue + 1
-            dlo, dhi = st.D, mn(h.s[nxt], st.DE)
-            anchor = z3.If(gn.strand == 1, st.U - 1, h.s[nxt])
-        elif k == 'upstream_substitution':
-            dlo, dhi = z3.If(st.first > 0, mx(h.e[st.first - 1], st.US), st.US), st.U
-        else:
-            dlo, dhi = st.D, z3.If(last < h.n - 1, mn(h.s[last + 1], st.DE), st.DE)
+        dlo, dhi = donor_range(k, h, st.US, st.U, st.D, st.DE, st.ue, st.ds, st.first, st.m)
+        if 'insertion' in k:
+            anchor = insertion_anchor(k, h, gn.strand, st.U, st.D, st.ue, st.ds)
         da, db = self.image(dlo, dhi)
         e.prove(f'C16/{k}/donor=gene-image-of-the-novel-exon-clipped-at-its-neighbour', z3.And(at.get('DONOR_START') == da, at.get('DONOR_END') == db, at.get('DONOR_GENE_ID') == 'G'))
         if 'insertion' in k:
@@ -1063,9 +1086,11 @@ class AlignmentConvert(Contract):
     the junction, interjacent exons that are the consecutive run next to it, something to delete, an anchoring neighbour for an insertion, a
     non-empty run for a substitution. Every constructor gets the annotation, gene sequence and variant id of this call and the lookup results
     of this alignment; the records returned are exactly the records constructed, in order; nothing is constructed on a side whose junction end
-    already coincides with an exon boundary of the transcript with no exon in between"""
+    already coincides with an exon boundary of the transcript with no exon in between. On top of these contracts the statement of C16 itself
+    is proved for one junction and one transcript (see denotation): each record emitted denotes the alternative form"""
     path, qualname, props = SJ, 'SpliceJunctionTranscriptAlignment.convert_to_variant_records', ('C16',)
     declared_raises = ['ValueError']
+    cover_any = True        # the "junction with coinciding exons reaches this record" covers: each record kind on some path, not on every path
     assumptions = ('requires (contract of align_to_transcript): each index is -1 or the position of the exon with that boundary; the side opposite to a '
                    'novel side is matched; exons sorted, non-empty, disjoint, non-adjacent; the callees are their proved contracts (postconditions assumed here)',)
 
@@ -1133,7 +1158,7 @@ class AlignmentConvert(Contract):
                                 z3.Implies(z3.And(st.ue == -1, st.ds == -1), m == 0)))
                 nxt = z3.If(fwd, st.ue + 1 + m, st.ds - 1 - m)
                 e.assume(z3.Or(nxt < 0, nxt >= h.n, z3.Not(z3.And(st.U <= h.s[nxt], h.e[nxt] <= st.D))))
-                for t in (first, last, nxt):
+                for t in (first, last, nxt, first - 1, last + 1):
                     c.add_term(I, t)
                 st.inter = _Interjacent(first, m)
                 return st.inter
@@ -1187,7 +1212,7 @@ class AlignmentConvert(Contract):
                     # a record is only built on a side whose junction end is not already an exon boundary with nothing in between
                     done = z3.And(st.ue != -1, m == 0) if side == 'upstream' else z3.And(st.ds != -1, m == 0)
                     e.prove(f'C16/convert/{kind}/nothing-is-built-where-the-transcript-already-has-this-junction-end', z3.Not(done))
-                    r = SymObj('VariantRecord', kind=kind, n=len(st.made))
+                    r = SymObj('VariantRecord', kind=kind, n=len(st.made), sp=a[0] if what == 'deletion' else None, first=first, m=m)
                     st.made.append(r)
                     return r
                 return f
@@ -1198,12 +1223,69 @@ class AlignmentConvert(Contract):
     def post_return(self, I, st, ret):
         e = I.e
         e.prove('C16/convert/returns-exactly-the-records-constructed-in-order', isinstance(ret, list) and len(ret) == len(st.made) and all(x is y for x, y in zip(ret, st.made)))
-        kinds = [r.fields['kind'] for r in st.made]
-        e.prove('C16/convert/at-most-one-record-per-side', len([k for k in kinds if k.startswith('upstream')]) <= 1 and len([k for k in kinds if k.startswith('downstream')]) <= 1)
-        if any(k.startswith('upstream') for k in kinds):
-            e.prove('C16/convert/upstream-side-record-only-for-a-novel-upstream-exon-or-a-minus-strand-skip', z3.Or(st.un, z3.And(z3.Not(st.dn), st.h.strand == -1)))
-        if any(k.startswith('downstream') for k in kinds):
-            e.prove('C16/convert/downstream-side-record-only-for-a-novel-downstream-exon-or-a-plus-strand-skip', z3.Or(st.dn, z3.And(z3.Not(st.un), st.h.strand == 1)))
+        self.denotation(I, st)
+
+    # ---- what the emitted record denotes (the statement of C16 at the level of one junction and one transcript)
+    def denotation(self, I, st):
+        """For a junction whose exons coincide with exons of the transcript (the quantifier of C16), the record emitted - read with the documented
+        deletion / insertion / substitution semantics through the postconditions of the constructor contracts - turns the set of exonic
+        genomic positions of the transcript into exactly that of the alternative form: the junction's novel exon present in full, nothing
+        exonic left between the junction ends, everything else unchanged; an insertion / substitution puts the donor where it belongs in
+        transcript order. All of it quantifier-free at an arbitrary position x (w: the exon containing x, if any)."""
+        for r in st.made:       # each record is read on its own, as the property states it
+            self.denotation_of(I, st, r)
+
+    def denotation_of(self, I, st, r):
+        e, h = I.e, st.h
+        kind, sp, first, m = (r.fields[k] for k in ('kind', 'sp', 'first', 'm'))
+        side, what = kind.split('_')
+        last = first + m - 1
+        inx = lambda t, q: z3.And(0 <= t, t < h.n, h.s[t] <= q, q < h.e[t])
+        inr = lambda t: z3.And(0 <= t, t < h.n)
+
+        def position(name):
+            q, wq = e.int(name), e.int(name + '_exon')
+            self.add_term(I, wq)
+            e.assume(z3.And(*[z3.Implies(inx(t, q), inx(wq, q)) for t in st.terms]))
+            return q, inx(wq, q)
+        x, InP = position('x_pos')
+        y, InPy = position('y_pos')
+
+        def noexon(lo, hi):
+            # ground instances of "no exonic base in [lo, hi)": at x, y and at the first / last base of every exon the function can talk about
+            inst = [z3.Implies(z3.And(lo <= x, x < hi), z3.Not(InP)), z3.Implies(z3.And(lo <= y, y < hi), z3.Not(InPy))]
+            for t in st.terms:
+                inst.append(z3.Implies(inr(t), z3.And(z3.Not(z3.And(lo <= h.s[t], h.s[t] < hi)), z3.Not(z3.And(lo <= h.e[t] - 1, h.e[t] - 1 < hi)))))
+            return z3.And(*inst)
+        US, U, D, DE = st.US, st.U, st.D, st.DE
+        pre1 = z3.Or(z3.And(st.usi == -1, noexon(US, U)), z3.And(st.usi != -1, z3.Or(U <= h.e[st.usi], noexon(h.e[st.usi], U))))
+        pre2 = z3.Or(z3.And(st.dei == -1, noexon(D, DE)), z3.And(st.dei != -1, z3.Or(h.s[st.dei] <= D, noexon(D, h.s[st.dei]))))
+        t1 = z3.If(x < US, InP, z3.If(x < U, True, z3.If(x < D, False, InP)))
+        t2 = z3.If(x < U, InP, z3.If(x < D, False, z3.If(x < DE, True, InP)))
+        t3 = z3.And(InP, z3.Not(z3.And(U <= x, x < D)))
+        situation = z3.Or(z3.And(st.un, z3.Not(st.dn), pre1), z3.And(st.dn, z3.Not(st.un), pre2), z3.And(z3.Not(st.un), z3.Not(st.dn), st.ue != -1, st.ds != -1))
+        target = z3.If(st.un, t1, z3.If(st.dn, t2, t3))
+        between = lambda lo, q, hi: z3.And(lo <= q, q < hi)
+        if what == 'deletion':
+            lo, hi = deletion_hull(side, h, U, D, sp, first, m)
+            after = z3.And(InP, z3.Not(between(lo, x, hi)))
+            order = z3.BoolVal(True)
+        else:
+            dlo, dhi = donor_range(kind, h, US, U, D, DE, st.ue, st.ds, first, m)
+            if what == 'insertion':
+                anchor = insertion_anchor(kind, h, h.strand, U, D, st.ue, st.ds)
+                after = z3.Or(InP, between(dlo, x, dhi))
+                order = z3.And(dlo < dhi, z3.Or(*[inx(t, anchor) for t in st.terms]),
+                               z3.If(h.strand == 1, z3.And(anchor < dlo, z3.Implies(z3.And(anchor < y, y < dhi), z3.Not(InPy))),
+                                     z3.And(anchor >= dhi, z3.Implies(z3.And(dlo <= y, y < anchor), z3.Not(InPy)))))
+            else:
+                rlo, rhi = h.s[first], h.e[last]
+                after = z3.Or(z3.And(InP, z3.Not(between(rlo, x, rhi))), between(dlo, x, dhi))
+                order = z3.And(dlo < dhi, z3.Implies(z3.And(between(_mn(dlo, rlo), y, _mx(dhi, rhi)), z3.Not(between(rlo, y, rhi))), z3.Not(InPy)))
+        e.cover(f'C16/convert/denotes/{kind}/cover/a-junction-with-coinciding-exons-reaches-this-record', situation)
+        e.prove(f'C16/convert/denotes/{kind}/exonic-positions-afterwards=the-alternative-form (novel exon in full, nothing between the junction ends, the rest unchanged)',
+                z3.Implies(situation, after == target))
+        e.prove(f'C16/convert/denotes/{kind}/the-donor-lands-where-it-belongs-in-transcript-order', z3.Implies(situation, order))
 
 
 @register
